@@ -146,6 +146,10 @@ def run(ck, prog, tier, load):
                 if n and n[2][0] == "const" and n[2][2] in (126, 65535) and n[0] in ("Lt", "Le"):
                     got[n[2][2]] = n[3]
             ck.ob("C14-c.writer-threshold", "%s|%s" % (wm.npath, fn.split("$")[0][-7:]), got == want_g, wm, bb, "writer length-class guard %s (want %s)" % (got, want_g))
+            # the length announced is the length of the payload that is written, nothing added to it
+            amt = wm.op_expr(wm.term(bb)["args"][1], 8)
+            plain = bool(e_calls(amt, r"::len$")) and not e_bins(amt, ("Add", "AddWithOverflow", "Sub", "SubWithOverflow", "Mul", "MulWithOverflow")) and not any(x[0] == "phi" for x in walk(amt))
+            ck.ob("C14-c.writer-length-is-payload-length", "%s|%s" % (wm.npath, fn.split("$")[0][-7:]), plain, wm, bb, "the extended length field carries payload.len() itself (no header/mask allowance added): %s" % short(amt, 4))
     # frame length arithmetic
     ca = [bb for bb, t in parse.calls(r"checked_add$")]
     ck.ob("C14-c.frame-len-checked", parse.npath, len(ca) >= 1, parse, ca[0] if ca else None, "idx + length computed with checked_add (None => Err(Overflow))")
@@ -299,6 +303,20 @@ def run(ck, prog, tier, load):
         }
         for k, v in tests.items():
             ck.ob("C14-e.accept-dominated", k, v, vh, bb, "Ok(()) is dominated by the passing edge of the `%s` test" % k)
+    # RFC 6455 4.2.1: the Upgrade token is matched case-insensitively. Every comparison with the literal "websocket" in the
+    # handshake check either folds case first or is itself case-insensitive
+    n_ws = 0
+    for b2 in prog.with_closures(vh):
+        for bb2, t2 in b2.calls(None):
+            args = [b2.op_expr(a_, 6) for a_ in t2.get("args", [])]
+            if not any(x[0] == "const" and x[3] == "websocket" for a_ in args for x in walk(a_)):
+                continue
+            n_ws += 1
+            nm = cname(t2)
+            folded = bool(rx(r"eq_ignore_ascii_case$").search(nm)) or any(e_calls(a_, r"to_ascii_lowercase$|to_lowercase$|make_ascii_lowercase$") for a_ in args)
+            ck.ob("C14-e.upgrade-token-case-insensitive", "%s|%s" % (b2.npath.split("::")[-1], nm.split("::")[-1]), folded, b2, bb2,
+                  "the Upgrade header is compared with `websocket` case-insensitively (to_ascii_lowercase / eq_ignore_ascii_case): `Upgrade: WebSocket` is a well-formed handshake")
+    ck.anchor("C14-e", n_ws, 1, "comparison with the literal \"websocket\" in verify_handshake")
     vers = sorted(c[3] for b2 in prog.with_closures(vh) for bb, t in b2.calls(r"PartialEq<str>>::eq$|PartialEq<&str>>::eq$|HeaderValue.*eq$") for c in [b2.op_expr(t["args"][1])] if c[0] == "const" and c[3] is not None)
     ck.ob("C14-e.versions", "13,8,7", set(vers) == {"13", "8", "7"} or set(vers) >= {"13"} and set(vers) <= {"13", "8", "7"}, vh, None, "accepted Sec-WebSocket-Version values: %s" % vers)
     hk = prog.one(r"^actix_http::ws::proto::hash_key$")
